@@ -139,6 +139,8 @@ pub struct Model {
     pub forgot_inner_loops: u64,
     pub implicit_arrays: u64,
     pub fn_calls: u64,
+    /// steps that only skipped the rest of a line after a THEN clause (no statement executed)
+    pub skiprest_steps: u64,
     in_function: u32,
 }
 
@@ -190,6 +192,7 @@ impl Model {
             forgot_inner_loops: 0,
             implicit_arrays: 0,
             fn_calls: 0,
+            skiprest_steps: 0,
             in_function: 0,
         }
     }
@@ -294,6 +297,7 @@ impl Model {
             let instr = self.lines[&line][idx].clone();
             match instr {
                 Instr::SkipRest => {
+                    self.skiprest_steps += 1;
                     self.pos = Some((line, usize::MAX));
                     return Ok(());
                 }
